@@ -855,6 +855,39 @@ class EffectDomain(DefaultDomain):
         if kwm is not None:
             return kwm
         fa = call.func
+        if isinstance(fa, ast.Attribute) and fa.attr == "format" and isinstance(fa.value, ast.Constant) and isinstance(fa.value.value, str) \
+                and not any(isinstance(a, ast.Starred) for a in call.args) and all(k.arg is not None for k in call.keywords):
+            # "...{}...".format(x): the same text as the f-string with x in that place
+            import string
+            try:
+                fields = list(string.Formatter().parse(fa.value.value))
+            except ValueError:
+                fields = None
+            simple = fields is not None and all(spec in ("", None) and conv is None for _, _, spec, conv in fields)
+            if simple:
+                out = []
+                for r in interp.eval_list(list(call.args) + [k.value for k in call.keywords], st, fr):
+                    if r.kind == "exc":
+                        out.append(r)
+                        continue
+                    pos_ = list(r.value[: len(call.args)])
+                    kw_ = {k.arg: v for k, v in zip(call.keywords, r.value[len(call.args):])}
+                    parts, auto, ok_ = [], 0, True
+                    for lit, name, _, _ in fields:
+                        if lit:
+                            parts.append(("const", lit))
+                        if name is None:
+                            continue
+                        if name == "":
+                            name, auto = str(auto), auto + 1
+                        if name.isdigit() and int(name) < len(pos_):
+                            parts.append(pos_[int(name)])
+                        elif name in kw_:
+                            parts.append(kw_[name])
+                        else:
+                            ok_ = False
+                    out.append(val(self.joined_str(parts) if ok_ else NOTNONE, r.state))
+                return out
         if isinstance(fa, ast.Attribute) and fa.attr in self.PURE_STR_METHODS and not call.keywords and not any(isinstance(n_, ast.Call) for n_ in ast.walk(fa.value)):
             folded = []
             undecided = False
